@@ -240,7 +240,7 @@ def main():
     agg = dict(paths=0, paths_with_obligations=0, queries=0, sat=0, unsat=0, unknown=0, solver_time_s=0.0, obligations_checked=0,
                obligations_by_solver=0, obligations_on_path=0, undecided_obligations=0, undecided_flips=0, witness_validated=0, witness_mismatch=0,
                concretised=0, inexact=0, exact_terms=0, rounded_terms=0, uf_terms=0, rounded_compares=0, uf_compares=0, signed_zero=0,
-               div0_paths=0, sqrt_neg_paths=0, unsupported_paths=0, assume_rejected_runs=0, diverged_runs=0, runs=0, pending_work=0, unrealised_flips=0)
+               div0_paths=0, sqrt_neg_paths=0, unsupported_paths=0, assume_rejected_runs=0, diverged_runs=0, runs=0, pending_work=0, unrealised_flips=0, ieee_boundary_models=0)
     per_h, functions, locations, samples, assumptions = [], set(), set(), [], set()
     agg_x = dict(witnesses=0, processes=0)
     closure = dict(proved=0, failed=0, unknown=0, skipped=0)
@@ -265,7 +265,9 @@ def main():
         per_h.append(dict(harness=job["h"], params=job.get("p", {}), exhaustive=rep["exhaustive"], paths=rep["paths"], queries=rep["queries"],
                           solver_time_s=round(rep["solver_time_s"], 2), wall_s=round(rep["wall_s"], 2), pending_work=rep["pending_work"],
                           obligations=rep["obligations_checked"], unknown=rep["unknown"], var_domains=rep.get("var_domains", []), max_trace_len=rep["max_trace_len"],
-                          rounded_terms=rep["rounded_terms"], uf_terms=rep["uf_terms"], shards=rep.get("shards", 1), closure=rep.get("closure", "")))
+                          rounded_terms=rep["rounded_terms"], uf_terms=rep["uf_terms"], shards=rep.get("shards", 1), closure=rep.get("closure", ""),
+                          not_covered=dict(undecided_flips=rep.get("undecided_flips", 0), unrealised_flips=rep.get("unrealised_flips", 0), diverged_runs=rep.get("diverged_runs", 0),
+                                           ieee_boundary_models=rep.get("ieee_boundary_models", 0), undecided_obligations=rep.get("undecided_obligations", 0))))
         for s in rep.get("samples", [])[:1]:
             samples.append(dict(harness=job["h"], params=job.get("p", {}), inputs=dict(zip([d.split(" in ")[0] for d in rep.get("var_domains", [])], s["inputs"])), branch_decisions=s["trace_len"], obligations=sorted(set(s["obligations"]))[:6]))
         cl = rep.get("closure", "")
@@ -369,10 +371,19 @@ def main():
             engine="symx (symbolic-scalar execution of the compiled real code, z3 %s)" % subprocess.run(["z3", "--version"], capture_output=True, text=True).stdout.strip(),
             functions_encoded=sorted(functions), source_lines_with_symbolic_operations=len(locations), source_files_touched=sorted(set(l.rsplit(":", 1)[0] for l in locations)),
             solver=dict(queries=agg["queries"], sat=agg["sat"], unsat=agg["unsat"], unknown=agg["unknown"], time_s=round(agg["solver_time_s"], 2)),
-            obligations_by_solver=agg["obligations_by_solver"], obligations_decided_on_path=agg["obligations_on_path"], undecided_obligations=agg["undecided_obligations"], undecided_flips=agg["undecided_flips"],
+            obligations_by_solver=agg["obligations_by_solver"], obligations_decided_on_path=agg["obligations_on_path"],
             terms=dict(exact=agg["exact_terms"], rounded=agg["rounded_terms"], uninterpreted=agg["uf_terms"], inexact=agg["inexact"], rounded_compares=agg["rounded_compares"], uf_compares=agg["uf_compares"], signed_zero_forks=agg["signed_zero"], concretised=agg["concretised"]),
             excluded_paths=dict(assume_rejected_runs=agg["assume_rejected_runs"], div_by_zero=agg["div0_paths"], sqrt_negative=agg["sqrt_neg_paths"]),
-            pending_work_items=agg["pending_work"], diverged_runs=agg["diverged_runs"],
+            not_covered=dict(
+                pending_work_items=agg["pending_work"], undecided_flips=agg["undecided_flips"], undecided_obligations=agg["undecided_obligations"],
+                unrealised_flips=agg["unrealised_flips"], diverged_runs=agg["diverged_runs"], ieee_boundary_models=agg["ieee_boundary_models"],
+                note="what this run did NOT settle (none of it is counted as work above; any non-zero entry makes the harness non-exhaustive, never a pass for that region): "
+                     "pending_work_items = branch flips with a model still queued when a job's wall-clock budget ended; undecided_flips = flip queries the solver gave up on within the "
+                     "per-query time limit; undecided_obligations = obligation queries it gave up on (not in 'discharged'); ieee_boundary_models = flip models that, evaluated with IEEE "
+                     "operations, sit on the other side of a rounded comparison even after four blocked retries; diverged_runs = concrete runs that left the path prefix their model was "
+                     "solved for (mostly those boundary models); unrealised_flips = requested paths not reached because of that.  Budgets and per-query limits are wall-clock, so on jobs "
+                     "that do not close these counts (and the number of paths reached) vary by a few per cent - the small ones by a few units - between runs with the same seed; per "
+                     "harness they are listed under harnesses[].not_covered."),
             harnesses=per_h, known_findings_seen=sorted(seen_known), inconclusive=inconclusive[:10],
             second_solver=dict(second, solver=SOLVER2 or "none", note="every path whose obligations the primary solver (z3 4.8.12, incremental within one run) reports as proved is re-asked, self-contained and in a fresh context, to a second solver (z3 5.1); a model from the second solver is treated as a counterexample candidate and replayed natively; skipped for path conditions with sqrt / uninterpreted terms"),
             closure_check=dict(closure, note="per harness run that closed: fresh solver proves domain /\\ not(pc_1 \\/ ... \\/ pc_n) unsat, i.e. every input of the domain follows an explored path; skipped for runs that did not close, whose path conditions mention sqrt / uninterpreted terms, or whose input variables differ between paths; a counter-model of that query is re-run on the real code and only counts as a missed path if its trace is not one of the explored ones (with rounded terms in a path condition exact arithmetic and IEEE can put an input on different sides of a decision): inputs_on_explored_paths_under_ieee_only counts those"),
